@@ -233,7 +233,7 @@ def step (s : St) : Op → St × Ans
     | some T =>
       ({ s with topics := s.topics.filter (fun X => X.name != t),
                 closed := s.closed ++ (T.chans.map (fun C => C.clients.map (·.id))).flatten,
-                files := s.files.filter (fun b => b.1 != t) }, Ans.ok)
+                files := s.files.filter (fun b => !(T.filesOf.contains b)) }, Ans.ok)
   | .deleteChanBegin t c =>
     match getChan s t c with
     | none => (s, Ans.noChan)
@@ -254,7 +254,7 @@ def step (s : St) : Op → St × Ans
         else if T.eph && (T.chans.filter (fun X => X.name != c)).isEmpty then
           -- last channel of an ephemeral topic: the topic's own once-only delete callback
           ({ s with topics := s.topics.filter (fun X => X.name != t),
-                    files := s.files.filter (fun b => b.1 != t) }, Ans.ok)
+                    files := s.files.filter (fun b => !(T.filesOf.contains b)) }, Ans.ok)
         else
           (modTopic s t (fun T => T.dropChan c), Ans.ok)
   | .emptyTopic t =>
